@@ -119,11 +119,13 @@ func (fr *filterRule) matches(name string, isDir bool) bool {
 	if fr.flag&filtruleWild != 0 {
 		panic("wildcard filter rules not yet implemented")
 	}
-	if !strings.ContainsRune(fr.pattern, '/') &&
-		fr.flag&filtruleWild == 0 {
-		name = filepath.Base(name)
+	if !strings.ContainsRune(fr.pattern, '/') {
+		return fr.pattern == filepath.Base(name)
 	}
-	return fr.pattern == name
+	// A pattern with a slash matches the end of the path, at a component
+	// boundary: sub/f names src/sub/f just as it names sub/f, however the
+	// source was spelt on the command line.
+	return name == fr.pattern || strings.HasSuffix(name, "/"+fr.pattern)
 }
 
 // exclude.c:parse_filter_str / exclude.c:parse_rule_tok
